@@ -152,6 +152,20 @@ func init() {
 		Marker: "C20 violated on the real code",
 		Data:   func(m map[string]string, goal string) (map[string]interface{}, error) { return map[string]interface{}{}, nil },
 	})
+	// C15: the burner burns any denom with bank metadata found at the zero address
+	registerReplay(&Replayer{
+		Obligation: "x/burner/keeper.(Keeper).burnTokensForDenom/burns:C15/burns-only-the-native-token",
+		Template:   "C15_burner_external_asset.go.tmpl", PkgDir: "x/burner/keeper", TestName: "TestVerifReplayC15BurnerBurnsExternalAsset",
+		Marker: "C15 violated on the real code",
+		Data: func(m map[string]string, goal string) (map[string]interface{}, error) {
+			amt := intOr(m, `^arg\.balance!amt\(any\.d\)$`, "1")
+			if strings.HasPrefix(amt, "-") || amt == "0" {
+				amt = "1"
+			}
+			// the model's denom is an abstract value different from the native token
+			return map[string]interface{}{"Denom": "uatom", "Amount": amt}, nil
+		},
+	})
 	// C14: a vesting entry whose released amount is ahead of its (reduced) schedule; the
 	// claim must still succeed. Reached after a partial cancel (Cancel > 0) or directly.
 	registerReplay(&Replayer{
